@@ -3,7 +3,8 @@
    xmlattr <autospace 0|1> (<key> <?|p<s>|m<s>>)*  -> OK <s> | ERR ValueError
    indentm <p|m><width> <first> <blank> <s>       -> OK <s>
    replacem <p|m><old> <p|m><new> <s>             -> OK <s>
-   joinm <p|m><d> (<p|m><item>)*                  -> OK <s> *)
+   joinm <p|m><d> (<p|m><item>)*                  -> OK <s>
+   truncatem <length> <killwords> <p|m><end> <leeway> <s>   -> OK <s> | ERR AssertionError *)
 open Filthtml_x
 let rec pos_of_int n = if n = 1 then XH else if n land 1 = 0 then XO (pos_of_int (n lsr 1)) else XI (pos_of_int (n lsr 1))
 let n_of_int n = if n = 0 then N0 else Npos (pos_of_int n)
@@ -26,6 +27,11 @@ let () =
         (match do_xmlattr (pairs rest) (a = "1") with Some r -> print_endline ("OK " ^ show r) | None -> print_endline "ERR ValueError")
     | ["indentm"; w; f; b; s] -> print_endline ("OK " ^ show (payload (indent_markup (cps s) (tstr w) (f = "1") (b = "1"))))
     | ["replacem"; o; n; s] -> print_endline ("OK " ^ show (payload (replace_markup (cps s) (tstr o) (tstr n))))
+    | ["truncatem"; len; kw; e; lw; s] ->
+        let z x = read_Z (List.init (String.length x) (fun i -> n_of_int (Char.code x.[i]))) in
+        (match truncate_markup (cps s) (z len) (kw = "1") (tstr e) (z lw) with
+         | Ok t -> print_endline ("OK " ^ show (payload t))
+         | Err _ -> print_endline "ERR AssertionError")
     | "joinm" :: d :: items -> print_endline ("OK " ^ show (payload (join_markup (tstr d) (List.map tstr items))))
     | _ -> failwith ("bad line " ^ line)
   done with End_of_file -> ()
